@@ -280,6 +280,10 @@ class TagIndex(Index):
             if len(tag) >= 2 and (
                 len(tag[0]) == 1 or tag[0] in ("expiration", "delegation")
             ):
+                if isinstance(tag[1], (list, tuple, dict)):
+                    # str() of a nested value differs between the submitted list
+                    # and the tuple decoded from the stored row
+                    continue
                 yield self.to_key((tag[0], str(tag[1])))
 
 
